@@ -153,6 +153,7 @@ func (c10) Check(out *sim.Outcome, ri *RunInfo) []Violation {
 		ri.NonTrivial = true
 		for _, f := range fired {
 			ri.probe("fired." + f.Op + "." + f.Class)
+			ri.probe(fmt.Sprintf("cell:%s/%s#%d/%s", variant, f.Op, f.K, f.Class))
 		}
 	}
 	var fs []string
@@ -574,6 +575,7 @@ func (c20) Check(out *sim.Outcome, ri *RunInfo) []Violation {
 		ri.NonTrivial = true
 	}
 	ri.probe("cap." + capb)
+	ri.probe(fmt.Sprintf("cell:%s/%s/%s/e2e%d", method, capb, fault, cs.C.E2E))
 	synProbes, ackProbes := map[string]int{}, map[string]int{}
 	for _, ep := range out.W.Eps {
 		for _, p := range ep.Probes {
